@@ -786,6 +786,17 @@ impl TB {
             self.add_wsnap(t, f, cur_name);
         }
     }
+    pub fn wcas_tag(&mut self, t: usize, c: WC, exp: &str, tag: u8, name: &str) {
+        let a = self.wcell(t, &c);
+        let b = self.wsnap_idx(t, exp);
+        let f = self.st[t]
+            .frames
+            .iter()
+            .position(|fr| fr.1.iter().any(|m| m == exp))
+            .unwrap_or(0);
+        self.push(t, K::WCasTag, a, b, tag << 3);
+        self.add_wsnap(t, f, name);
+    }
     pub fn raw(&mut self, t: usize, k: K, a: u8, b: u8, c: u8) {
         self.push(t, k, a, b, c);
     }
